@@ -335,13 +335,8 @@ def _idset_access(fb, R, rec, fns, T, data_f):
             kind, d, cidx, vacc = po
             key0 = fn.q
             # (a) index pair: offset(x) inside chunk_id(x)
-            oi = U.scn(fn, idx)
-            ci = U.scn(fn, cidx)
-            hops = 0
-            while ci is not None and ci.get('k') == 'var' and ci.get('vk') == 'local' and hops < 2:
-                hops += 1
-                init = U.local_init(fn, ci['d'])
-                ci = U.scn(fn, init) if init is not None and ci['d'] not in U.assigned_vars(fn) else None
+            oi = U.rn(fb, fn, idx)
+            ci = U.rn(fb, fn, cidx)
             same = (oi is not None and ci is not None and oi.get('k') == 'call' and ci.get('k') == 'call' and oi.get('u') == T['off'].usr
                     and ci.get('u') == T['chunk'].usr and oi.get('args') and ci.get('args')
                     and U.ctext(fb, fn, oi['args'][0]) == U.ctext(fb, fn, ci['args'][0]))
@@ -376,11 +371,11 @@ def _idset_size(fb, R, rec, fns, T, data_f, size_f):
             site = fn.loc(n['id'])
             idt = U.ctext(fb, fn, src['args'][0])
             # mask operand: bitmask(id) / ~bitmask(id) of the same id
-            m = U.scn(fn, n['rhs'])
+            m = U.rn(fb, fn, n['rhs'])
             neg = False
             if m is not None and m.get('k') == 'unop' and m.get('op') == '~':
                 neg = True
-                m = U.scn(fn, m['sub'])
+                m = U.rn(fb, fn, m['sub'])
             okm = m is not None and m.get('k') == 'call' and m.get('u') == T['bit'].usr and m.get('args') and U.ctext(fb, fn, m['args'][0]) == idt and neg == (not setting)
             # guard: (element & bitmask(id)) == 0 for set, != 0 for clear
             okg = False
@@ -390,9 +385,9 @@ def _idset_size(fb, R, rec, fns, T, data_f, size_f):
                     continue
                 op = p[0] if s else U.NEG[p[0]]
                 for a, z in ((p[1], p[2]), (p[2], p[1])):
-                    an = U.scn(fn, a)
+                    an = U.rn(fb, fn, a)
                     if fn.const_value(z) == 0 and an is not None and an.get('k') == 'binop' and an.get('op') == '&':
-                        sides = [U.scn(fn, an['lhs']), U.scn(fn, an['rhs'])]
+                        sides = [U.rn(fb, fn, an['lhs']), U.rn(fb, fn, an['rhs'])]
                         hasv = any(x is not None and x.get('k') == 'var' and x.get('d') == lv['d'] for x in sides)
                         hasm = any(x is not None and x.get('k') == 'call' and x.get('u') == T['bit'].usr and x.get('args')
                                    and U.ctext(fb, fn, x['args'][0]) == idt for x in sides)
@@ -904,15 +899,71 @@ def relmap_rules(fb, R):
         ok = len(moved) == 1 and iflag in inits and fn.const_value(inits[iflag]['init']) == (1 if moved[0] == i32 else 0)
         R.check(ok, r4, '%s(%s)#flag-matches-map' % (fn.q, 'map32' if moved[:1] == [i32] else 'map64'), fn.site,
                 'the RelationsMapIndex constructor must set %s exactly when it takes the 32-bit map' % iflag)
+    def map_uses(fn):
+        """[(node, map field)]: calls on a map member of the index, or calls that receive it as an argument (helper taking the map)."""
+        out = []
+        for n in fn.all_nodes():
+            if n.get('k') != 'call':
+                continue
+            if n.get('recv') is not None and n.get('rcls') == FMAP:
+                r = _map_roots(fn, n['recv'])
+                if r is not None and r[0] == 'field' and r[1] in imaps:
+                    out.append((n, r[1]))
+                    continue
+            if n.get('q') in ('std::move', 'std::forward'):
+                continue
+            for a_ in n.get('args', []) or []:
+                r = _map_roots(fn, a_) if a_ is not None else None
+                if r is not None and r[0] == 'field' and r[1] in imaps:
+                    out.append((n, r[1]))
+        return out
+
+    def invocations(g):
+        """calls of a functor parameter of g: [(call node, ok)] -- ok: argument is it->value, it runs over [P.first, P.second) of
+        P = <map>.get(<id parameter>)"""
+        out = []
+        pd = {p_['d']: p_ for p_ in g.params}
+        for n in g.all_nodes():
+            if n.get('k') != 'call' or n.get('op') != '()' or not n.get('args'):
+                continue
+            rv = g.root_var(n.get('recv')) if n.get('recv') is not None else None
+            if rv is None or rv[0] != 'var' or rv[1] not in pd:
+                continue
+            fp = U._field_path(g, n['args'][-1])
+            ok = fp is not None and fp[1] == (kv[1],) and fp[0][0] == 'var'
+            info = None
+            if ok:
+                init = U.local_init(g, fp[0][1])
+                ip = U._field_path(g, init) if init is not None else None
+                ok = ip is not None and ip[1] == ('first',) and ip[0][0] == 'var'
+                bound = False
+                for (c, s_, b_, o_) in U.guards(g, n['id']):
+                    pp = U.cmp_parts(g, c)
+                    if pp is not None and pp[0] == '!=' and s_:
+                        for side in (pp[1], pp[2]):
+                            q2 = U._field_path(g, side)
+                            if q2 is not None and q2[1] == ('second',) and ip is not None and q2[0] == ip[0]:
+                                bound = True
+                ok = ok and bound
+                if ok:
+                    rinit = U.local_init(g, ip[0][1])
+                    gc = U.scn(g, rinit) if rinit is not None else None
+                    ok = gc is not None and gc.get('k') == 'call' and gc.get('q') == FMAP + '::get' and gc.get('recv') is not None and gc.get('args')
+                    if ok:
+                        mroot = _map_roots(g, gc['recv'])
+                        idn = U.scn(g, gc['args'][0])
+                        ok = mroot is not None and idn is not None and idn.get('k') == 'var' and idn.get('d') in pd
+                        info = (mroot, idn.get('d') if idn is not None else None)
+            out.append((n, ok, info))
+        return out
     for fn in [f for f in fb.functions if f.cls == RINDEX and f.has_cfg and f.name in ('for_each', 'empty', 'size')]:
-        uses = [n for n in fn.all_nodes() if n.get('k') == 'call' and n.get('rcls') == FMAP and n.get('recv') is not None and _map_roots(fn, n['recv']) is not None]
-        ok = bool(uses)
-        for n in uses:
-            root = _map_roots(fn, n['recv'])
+        uses = map_uses(fn)
+        ok = {m for (_n, m) in uses} == {i32, i64}
+        for (n, m) in uses:
             senses = set()
-            for (c, s, b, o) in U.guards(fn, n['id']):
+            for (c, s_, b_, o_) in U.guards(fn, n['id']):
                 if fn.is_this_member(c, iflag):
-                    senses.add(s)
+                    senses.add(s_)
             if not senses:      # conditional operator: the guard is the condition of the enclosing ?:
                 pm = fn.parent_map()
                 x = n['id']
@@ -921,29 +972,45 @@ def relmap_rules(fb, R):
                     if par.get('k') == 'condop' and fn.is_this_member(par['cond'], iflag):
                         senses.add(x in fn.subtree(par['then']))
                     x = pm[x]
-            ok = ok and senses == {root == ('field', i32)}
-        R.check(ok, r4, fn.q + '#dispatch-on-small-flag', fn.site, '%s must use the 32-bit map exactly when %s is set' % (fn.q, iflag))
+            ok = ok and senses == {m == i32}
+        R.check(ok, r4, fn.q + '#dispatch-on-small-flag', fn.site, '%s must use the 32-bit map exactly when %s is set (and the 64-bit map otherwise)' % (fn.q, iflag))
         if fn.name == 'for_each':
-            inv = [n for n in fn.all_nodes() if n.get('k') == 'call' and n.get('op') == '()' and fn.params and n.get('args')]
-            ok = len(inv) == 2
-            for n in inv:
-                fp = U._field_path(fn, n['args'][-1])
-                ok = ok and fp is not None and fp[1] == (kv[1],) and fp[0][0] == 'var'
-                if ok:
-                    # the iterator runs from .first to .second of the range returned by get(id)
-                    init = U.local_init(fn, fp[0][1])
-                    ip = U._field_path(fn, init) if init is not None else None
-                    ok = ip is not None and ip[1] == ('first',)
-                    bound = False
-                    for (c, s, b, o) in U.guards(fn, n['id']):
-                        p = U.cmp_parts(fn, c)
-                        if p is not None and p[0] == '!=' and s:
-                            q2 = U._field_path(fn, p[2])
-                            if q2 is not None and q2[1] == ('second',) and ip is not None and q2[0] == ip[0]:
-                                bound = True
-                    ok = ok and bound
-            R.check(ok, r4, fn.q + '#calls-func-with-value-of-whole-range', fn.site,
-                    'for_each must call the functor with it->%s for every element of [range.first, range.second)' % kv[1])
+            idp = fn.params[0] if fn.params else None
+            good = idp is not None
+            ninv = 0
+            covered = set()
+            for (n, ok_, info) in invocations(fn):
+                ninv += 1
+                good = good and ok_ and info is not None and info[0][0] == 'field' and info[1] == idp['d']
+                if info is not None and info[0][0] == 'field':
+                    covered.add(info[0][1])
+            for (n, m) in uses:
+                if n.get('rcls') == FMAP and n.get('recv') is not None:
+                    continue
+                # the map is handed to a helper of the class: its body must do the iteration for (that map, our id)
+                g = U._callee_for(fb, fn, n)
+                if g is None or not g.has_cfg or g.cls != RINDEX:
+                    good = False
+                    continue
+                binds = {}
+                for i_, a_ in enumerate(n.get('args', [])):
+                    if a_ is not None and i_ < len(g.params):
+                        binds[g.params[i_]['d']] = a_
+                inv = invocations(g)
+                if not inv:
+                    good = False
+                for (n2, ok_, info) in inv:
+                    ninv += 1
+                    okb = ok_ and info is not None and info[0][0] == 'var' and info[0][1] in binds and info[1] in binds \
+                        and _map_roots(fn, binds[info[0][1]]) == ('field', m) and U.ctext(fb, fn, binds[info[1]]) == idp['name']
+                    # the functor parameter of the helper receives our functor
+                    good = good and okb
+                    if okb:
+                        covered.add(m)
+            good = good and ninv >= 1 and covered == {i32, i64}
+            R.check(good, r4, fn.q + '#calls-func-with-value-of-whole-range', fn.site,
+                    'for_each must call the functor with it->%s for every element of [range.first, range.second) of <map>.get(id), for both maps '
+                    '(directly or through a helper of the class that receives the map and the id)' % kv[1])
     for fn in [f for f in sfns if f.name == 'add_members']:
         adds = [n for n in fn.all_nodes() if n.get('k') == 'call' and n.get('q') == STASH + '::add' and len(n.get('args', [])) == 2]
         ok = len(adds) == 1
